@@ -208,7 +208,25 @@ impl<Rounds: Unsigned + Default> NewCipher for ChaChaAny<U24, Rounds, X> {
 impl<NonceSize: Unsigned, Rounds, IsX> StreamCipherSeek for ChaChaAny<NonceSize, Rounds, IsX> {
     #[inline]
     fn try_current_pos<T: SeekNum>(&self) -> Result<T, OverflowError> {
-        unimplemented!()
+        let buf = &self.state;
+        let total: u128 = if NonceSize::U32 != 12 {
+            1 << 64
+        } else {
+            SMALL_LEN as u128
+        };
+        // Blocks generated so far; `fresh` tells the initial len == 0 from "no blocks left".
+        let blocks = if buf.fresh {
+            0
+        } else {
+            total - buf.len as u128
+        };
+        if buf.have > 0 {
+            // part of the last generated block is still unused
+            T::from_block_byte(blocks - 1, BLOCK as u8 - buf.have as u8, BLOCK as u8)
+        } else {
+            // block boundary, or a pending lazy refill after a mid-block seek
+            T::from_block_byte(blocks, buf.have.unsigned_abs(), BLOCK as u8)
+        }
     }
     #[inline(always)]
     fn try_seek<T: SeekNum>(&mut self, pos: T) -> Result<(), LoopError> {
